@@ -207,3 +207,52 @@ def selftests(prop):
             ('transliteration', dict(ti=3, ai=1, nvars=0, trap_no=0, a1=0, hy=True, trap_first=True, backend=0)),
             ('import_rewrite', dict(i=0, gen=1, extra=True)),
             ('reserved_alias', dict(dialect=0)), ('reserved_alias', dict(dialect=1)), ('reserved_alias', dict(dialect=2))]
+
+
+def replay_home(newmod, newsym):
+    """does the pysnmp MIB set shipped in the environment export `newsym` from `newmod`? True = yes"""
+    from pysnmp.smi.builder import MibBuilder
+    from pysmi.codegen.pysnmp import PySnmpCodeGen
+    mb = MibBuilder()
+    names = PySnmpCodeGen.SMI_OBJECTS.get(newsym, [newsym])
+    try:
+        mb.importSymbols(newmod, *[n.replace('-', '_') if False else n for n in names])
+    except Exception:
+        return False
+    return True
+
+
+def solver_obligations(prop, tier, ctx):
+    """independent oracle data for the import map: every (SMIv2 module, symbol) a SMIv1 import is rewritten to must be
+    exported by that module in the pysnmp MIB set shipped with the environment (for the modules that are shipped).
+    A table look-up against executed pysnmp modules, not a solver query; recorded as a side condition."""
+    import os
+    import pysnmp.smi.mibs as mibs
+    shipped = set(f[:-3] for f in os.listdir(os.path.dirname(mibs.__file__)) if f.endswith('.py'))
+    bad = []
+    n = 0
+    for mod in sorted(AbstractCodeGen.convertImportv2):
+        for sym, targets in sorted(AbstractCodeGen.convertImportv2[mod].items()):
+            for newmod, newsym in targets:
+                if newmod not in shipped:
+                    continue
+                n += 1
+                if not replay_home(newmod, newsym):
+                    bad.append((mod, sym, newmod, newsym))
+    rec = dict(cond='C16.import-home-exists', fn='AbstractCodeGen.convertImportv2 vs pysnmp.smi.mibs', paths=0, queries=0, verdict='STATIC',
+               bounds='%d rewritten imports whose SMIv2 home module is shipped with pysnmp (%s)' % (n, ', '.join(sorted(shipped & set(
+                   t[0] for mm in AbstractCodeGen.convertImportv2.values() for tl in mm.values() for t in tl)))))
+    if not bad:
+        rec.update(status='held', confirmed_paths=n)
+        return [rec]
+    mod, sym, newmod, newsym = bad[0]
+    rel = 'replays/C16-import-home.py'
+    os.makedirs(os.path.join(ctx['verif'], 'replays'), exist_ok=True)
+    with open(os.path.join(ctx['verif'], rel), 'w') as fh:
+        fh.write('import os, sys\nsys.path.insert(0, os.environ.get("VERIF_REPO", "/repo"))\n'
+                 'sys.path.insert(0, os.path.dirname(os.path.dirname(os.path.abspath(__file__))))\n'
+                 'from pysmi.codegen.base import AbstractCodeGen\nfrom harness.c16_smiv1 import replay_home\n'
+                 't = AbstractCodeGen.convertImportv2[%r][%r]\nsys.exit(0 if all(replay_home(a, b) for a, b in t) else 1)\n' % (mod, sym))
+    rec.update(status='violation', counterexample=dict(smiv1=(mod, sym), rewritten_to=(newmod, newsym)), replay=rel,
+               message='%s::%s is rewritten to %s::%s, which that module does not define' % (mod, sym, newmod, newsym))
+    return [rec]
